@@ -273,7 +273,7 @@ Definition chk_eff (k : EffCase) : bool :=
    | OOther _ => desc =? (-3)
    | OCrash => desc =? (-1)
    end) &&
-  list_eqb (concat (map wire_bytes (e_sent e1))) sent && Bool.eqb (e_closed e1) closed &&
+  list_eqb (List.concat (List.map wire_bytes (e_sent e1))) sent && Bool.eqb (e_closed e1) closed &&
   Bool.eqb (e_resumable e1) resum && list_eqb (e_rbuf e1) rbuf.
 '''
 
